@@ -112,6 +112,19 @@ Example C10_mean_centring_refuted :
   ~ mean [(0, 0); (1, 1); (3, 1); (4, 0)] == mean [(0, 0); (1 # 2, 1 # 2); (1, 1); (3, 1); (4, 0)].
 Proof. vm_compute. discriminate. Qed.
 
+(* boundary stripping: every given vertex off the roll face is stored - also a single peak between two face points and grooves that touch
+   the face in between - and no vertex is invented; the pinned strip (own height not looked at) dropped such a peak (repaired defect) *)
+Theorem C10_spline_keeps_every_vertex_off_the_face : forall (pts : list (Q * Q)) (p : Q * Q),
+  In p pts -> close0 (snd p) = false -> In p (strip pts).
+Proof. exact strip_keeps_every_vertex_off_the_face. Qed.
+
+Theorem C10_spline_strip_invents_nothing : forall (pts : list (Q * Q)) (p : Q * Q), In p (strip pts) -> In p pts.
+Proof. exact (strip_invents_nothing true). Qed.
+
+Theorem C10_spline_strip_pinned_refuted :
+  exists pts p, In p pts /\ close0 (snd p) = false /\ ~ In p (strip_pinned pts) /\ In p (strip pts).
+Proof. exact strip_pinned_drops_a_peak. Qed.
+
 Example C10_spline_nonvacuous : incr (0, 0) [(1, 1); (3, 1); (4, 0)] /\ collinear_between (0, 0) (1 # 2, 1 # 2) (1, 1).
 Proof. unfold collinear_between, seg. cbn. repeat split; try reflexivity. Qed.
 End Rational.
@@ -121,3 +134,6 @@ Print Assumptions C10_spline_refinement_invariant.
 Print Assumptions C10_spline_refinement_invariant_head.
 Print Assumptions C10_spline_centre_resampling.
 Print Assumptions C10_spline_centred.
+Print Assumptions C10_spline_keeps_every_vertex_off_the_face.
+Print Assumptions C10_spline_strip_invents_nothing.
+Print Assumptions C10_spline_strip_pinned_refuted.
